@@ -17,6 +17,9 @@ def mk_task(rng, name, H, types=("Fixed", "Zero", "Variable"), p_optional=0.3, p
         elif r < 0.75:
             t["allowed_durations"] = sorted(rng.sample([1, 2, 3, 4], 2))
             t["max_duration"] = max(t["allowed_durations"])
+            if rng.random() < 0.4:
+                # a lower bound above one of the listed durations: both restrictions hold together
+                t["min_duration"] = t["max_duration"]
         else:
             t["min_duration"] = rng.randint(1, 2)
             t["max_duration"] = t["min_duration"] + 2
